@@ -105,6 +105,8 @@ def tls_conn(draw, combos=None, max_records=12, max_len=2000, delivery=None, ep=
             spec["ccs13"] = draw(st.booleans())
             spec["pad13"] = draw(st.sampled_from([0, 0, 1, 7, 100]))
             spec["tickets"] = draw(st.integers(0, 2))
+            if draw(st.integers(0, 3)) == 0:      # 0.5-RTT data
+                spec["half_rtt"] = draw(st.lists(st.tuples(st.integers(0, 300), st.integers(0, 3)).map(list), min_size=1, max_size=2))
         else:
             spec["tickets"] = draw(st.integers(0, 1))
             spec["ske"] = draw(st.booleans())
@@ -154,7 +156,9 @@ def quic_frame(max_data=300):
         st.tuples(st.just("ping")),
         st.tuples(st.just("ack"), QV, st.integers(0, 5000), st.integers(0, 50), st.lists(st.tuples(st.integers(0, 50), st.integers(0, 50)).map(list), max_size=3),
                   st.one_of(st.none(), st.tuples(QV, QV, QV).map(list)), QW),
-        st.tuples(st.just("crypto"), QV, st.integers(0, 80), QW),            # post-handshake CRYPTO (session tickets)
+        st.tuples(st.just("crypto"), QV, st.integers(0, 80), QW),            # post-handshake CRYPTO bytes at any offset
+        st.tuples(st.just("nst"), st.integers(0, 120), st.integers(0, 60), QW),   # a well-formed NewSessionTicket, in order (1 or 2 frames)
+        st.tuples(st.just("nst"), st.integers(0, 120), st.integers(0, 60), QW),
         st.tuples(st.just("token"), st.integers(1, 40), QW),
         st.tuples(st.just("maxdata"), QV, QW),
         st.tuples(st.just("maxsd"), QV, QV, QW),
@@ -200,7 +204,7 @@ def quic_steps(draw, max_steps=12, key_updates=True, cids=True, zero_cid=False):
             frs = extra[:cut] + [main] + extra[cut:]
             tot, kept = 0, []
             for f in frs:            # keep the datagram below a typical MTU
-                sz = f[2] + 20 if f[0] == "stream" else {"crypto": 90, "dgram": 70, "token": 50, "pad": 30}.get(f[0], 30)
+                sz = f[2] + 20 if f[0] == "stream" else {"crypto": 90, "nst": 140, "dgram": 70, "token": 50, "pad": 30}.get(f[0], 30)
                 if tot + sz <= 1150:
                     tot += sz
                     kept.append(f)
@@ -209,6 +213,14 @@ def quic_steps(draw, max_steps=12, key_updates=True, cids=True, zero_cid=False):
             if k == 19:
                 pk.insert(0, {"fr": [["ack", 0, 0, 0, [], None, None]]})
             steps.append({"op": "data", "d": d, "pk": pk})
+    # most connections end with CONNECTION_CLOSE (transport 0x1c or application 0x1d), alone or behind the last stream data
+    end = draw(st.integers(0, 5))
+    if end <= 1:
+        close = ["close", draw(st.sampled_from([0, 0, 0x0a, 0x100, 0x3fff])), draw(st.sampled_from([0, 0x08, 0x1c])), draw(st.integers(0, 20)), bool(end), draw(QW)]
+        frs = [close]
+        if draw(st.booleans()):
+            frs.insert(0, ["stream", draw(st.integers(0, 12)), draw(st.integers(1, 60)), None, True, True, None])
+        steps.append({"op": "data", "d": draw(st.integers(0, 1)), "pk": [{"fr": frs, "gap": 0, "pnl": 0}]})
     return steps
 
 
